@@ -84,15 +84,16 @@ def seq(*atoms):
 
 
 class Interp:
-    def __init__(self, prog, body, adt, depth=0):
+    def __init__(self, prog, body, adt, depth=0, prefix=""):
         self.prog = prog
         self.body = body
-        self.adt = adt            # ADT fact of the wrapper type
+        self.adt = adt            # ADT fact of the wrapper type (or of a nested crate object held in one of its fields)
         self.depth = depth
+        self.prefix = prefix      # field-name prefix of a nested object: its fields live in the same state as `<prefix><name>`
         self.ftypes = {}
         for v in adt["variants"]:
             for f in v["fields"]:
-                self.ftypes[f["name"]] = f["ty"]
+                self.ftypes[prefix + f["name"]] = f["ty"]
         self.paths = 0
         self.loop_at = {h: blocks for h, blocks, _ in body.loops()}
 
@@ -179,7 +180,13 @@ class Interp:
             return ("pool", name)
         if _is_container_ty(ty):
             return seq("S:" + name)
+        if self._crate_adt(ty) is not None:
+            return ("obj", name)
         return ("opaque", "S:" + name)
+
+    def _crate_adt(self, ty):
+        base = re.sub(r"<.*$", "", ty.strip())
+        return self.prog.adts.get(base)
 
     def key_of(self, st, place):
         """resolve a MIR place to ('L', n) | ('F', name) | None"""
@@ -199,7 +206,7 @@ class Interp:
                     return None
             elif isinstance(e, dict) and "f" in e:
                 if base == ("SELF",):
-                    base = ("F", e.get("name"))
+                    base = ("F", self.prefix + e.get("name"))
                 elif base[0] in ("L", "F"):
                     base = ("P", base, e.get("name") if e.get("name") is not None else e["f"])
                 else:
@@ -597,23 +604,33 @@ class Interp:
                 return [st]
         # --- Option plumbing around pop results
         # --- crate-local method on self: interpret the callee
-        if fr is not None and a0 is not None and a0[0] == "self" and self.depth < 2:
+        if fr is not None and a0 is not None and a0[0] == "self" and self.depth < 3:
             callee = self.prog.resolve_local(fr) if hasattr(self.prog, "resolve_local") else None
             if callee is not None:
                 return self.inline_call(st, callee, args, dest, loc)
+        # --- crate-local method on a nested crate object held in a field (e.g. a spare-buffer pool type)
+        if fr is not None and a0 is not None and a0[0] == "ref" and a0[1][0] == "F" and self.depth < 3:
+            tgt = self.load(st, a0[1])
+            callee = self.prog.resolve_local(fr)
+            if tgt is not None and tgt[0] == "obj" and callee is not None:
+                nested = self._crate_adt(self.ftypes.get(a0[1][1], ""))
+                if nested is not None:
+                    return self.inline_call(st, callee, args, dest, loc, adt=nested, prefix=a0[1][1] + ".", self_arg=0)
         self.touch_unknown(st, args, name, loc)
         self.store(st, dest, None)
         return [st]
 
-    def inline_call(self, st, callee, args, dest, loc):
-        sub = Interp(self.prog, callee, self.adt, self.depth + 1)
+    def inline_call(self, st, callee, args, dest, loc, adt=None, prefix=None, self_arg=None):
+        sub = Interp(self.prog, callee, adt or self.adt, self.depth + 1, self.prefix if prefix is None else prefix)
+        if adt is not None:
+            sub.ftypes.update(self.ftypes)
         init = State()
         init.fields = st.fields          # shared by reference on purpose: cloned per path below
         init = st.clone()
         init.env = {}
         init.visited = ()
         for i, a in enumerate(args):
-            init.env[i + 1] = self.val(st, a)
+            init.env[i + 1] = ("self",) if i == self_arg else self.val(st, a)
             p = op_place(a)
             if p is not None and "move" in a:
                 v = self.val(st, a)
@@ -632,6 +649,8 @@ class Interp:
             self.store(s2, dest, fin.env.get(0))
             outs.append(s2)
         self.paths += sub.paths
+        for k, v in sub.ftypes.items():
+            self.ftypes.setdefault(k, v)
         return outs
 
     def touch_unknown(self, st, args, name, loc):
